@@ -336,6 +336,20 @@ type session struct {
 	ctxs      []context.Context
 	retained  []retainedStr
 	retainedB []retainedBytes
+	// route, when set, selects the per-connection session a callback belongs to
+	route func(addr string) *session
+}
+
+// of returns the session the callback with this context belongs to.
+func (s *session) of(ctx context.Context) *session {
+	if s.route == nil {
+		return s
+	}
+	a := wire.RemoteAddress(ctx)
+	if a == nil {
+		return s
+	}
+	return s.route(a.String())
 }
 
 type retainedStr struct {
@@ -763,7 +777,8 @@ func (s *session) runStmt(ctx context.Context, st *stmtSpec, w wire.DataWriter, 
 	return nil
 }
 
-func (s *session) parseFn(ctx context.Context, query string) (wire.PreparedStatements, error) {
+func (s0 *session) parseFn(ctx context.Context, query string) (wire.PreparedStatements, error) {
+	s := s0.of(ctx)
 	s.log.add("P:" + hx([]byte(query)) + s.ctxSig(ctx))
 	s.ctxs = append(s.ctxs, ctx)
 	s.retain("query", query)
@@ -789,6 +804,7 @@ func (s *session) parseFn(ctx context.Context, query string) (wire.PreparedState
 			cols[i] = wire.Column{Name: c.name, Oid: c.oid}
 		}
 		fn := func(ctx context.Context, w wire.DataWriter, params []wire.Parameter) error {
+			s := s0.of(ctx)
 			ps := make([]string, len(params))
 			for i, p := range params {
 				if p.Value() == nil {
